@@ -44,7 +44,7 @@ var c03Kinds = []string{"send_to_fx", "bridge_call", "bridge_token", "send_to_ex
 var c03Fields = map[string][]string{
 	"send_to_fx":         {"token", "amount", "sender", "receiver", "target", "height"},
 	"bridge_call":        {"token", "amount", "sender", "refund", "to", "data", "memo", "value", "tx_origin", "height", "tokens_len", "migrate_data_value", "migrate_value_memo"},
-	"bridge_token":       {"token", "name", "symbol", "decimals", "channel_ibc", "height", "resplit_name_symbol", "migrate_decimals_channel"},
+	"bridge_token":       {"token", "name", "symbol", "decimals", "channel_ibc", "height", "resplit_name_symbol", "migrate_decimals_channel", "symbol_case", "name_case"},
 	"send_to_external":   {"token", "batch_nonce", "height"},
 	"oracle_set_updated": {"set_nonce", "member_power", "member_addr", "members_len", "height", "migrate_height_setnonce"},
 	"bridge_call_result": {"call_nonce", "success", "cause", "tx_origin", "height"},
@@ -392,6 +392,18 @@ func (g *claimGen) mutate(c crosschaintypes.ExternalClaim, field string) crossch
 			m.ChannelIbc = differentHex(g, m.ChannelIbc)
 		case "height":
 			m.BlockHeight = bump(m.BlockHeight)
+		case "symbol_case": // free-form text is case-sensitive ("fx" is not the native coin's symbol "FX")
+			sw := swapCase(m.Symbol)
+			if sw == m.Symbol {
+				return nil
+			}
+			m.Symbol = sw
+		case "name_case":
+			sw := swapCase(m.Name)
+			if sw == m.Name {
+				return nil
+			}
+			m.Name = sw
 		case "resplit_name_symbol":
 			// move the boundary between the two adjacent free-form fields across a '/'
 			joined := m.Name + "/" + m.Symbol
@@ -705,3 +717,16 @@ func isCrosschainStore(s string) bool {
 }
 
 var _ = fxtypes.DefaultDenom
+
+func swapCase(s string) string {
+	b := []byte(s)
+	for i, c := range b {
+		switch {
+		case c >= 'a' && c <= 'z':
+			b[i] = c - 32
+		case c >= 'A' && c <= 'Z':
+			b[i] = c + 32
+		}
+	}
+	return string(b)
+}
